@@ -132,9 +132,10 @@ def inBoxB : List Ext → List Int → Bool
   | e :: es, i :: is => e.contains i && inBoxB es is
   | _, _ => false
 
-/-- `array::reextent(extensions) &` array.hpp:1461-1484: nothing if the extensions compare equal; otherwise a new
-    block for `layout_t{extensions}`, value-initialised, the elements of the common sub-block
-    `intersection(this->extensions(), tmp.extensions())` assigned from the old block, old block destroyed and released.
+/-- `array::reextent(extensions) &` array.hpp:1467-1492: nothing if the extensions compare equal; otherwise a new
+    block for `layout_t{extensions}`, value-initialised; if the common index box
+    `is = intersection(this->extensions(), tmp.extensions())` has elements, `tmp.apply(is).elements() = this->apply(is).elements()`
+    (element of index `idx` to element of index `idx`); old block destroyed and released.
     (The new block is row-major over `tmp.extensions()`: its storage order is the canonical order.) -/
 def reextent (dflt : α) (a : Arr α) (x : List Ext) : Arr α :=
   if Exts.eqv x a.lay.exts then a
@@ -142,24 +143,6 @@ def reextent (dflt : α) (a : Arr α) (x : List Ext) : Arr α :=
     let tl := Layout.ofExts x
     let is := Exts.inter a.lay.exts tl.exts
     ⟨tl, (boxIndices tl.exts).map fun idx => if inBoxB is idx then a.get dflt idx else dflt⟩
-
-/-- The assertion on the path of `reextent`: `tmp.apply(is) = this->apply(is)` slices both blocks with the ranges of the
-    intersection through `paren_aux_` → `range` → `sliced_aux_`, and the D > 1 `sliced_aux_` asserts
-    `this->base_ || (first*stride() - offset() == 0)` ("it is UB to offset a nullptr", array_ref.hpp:1281).  `base_` is
-    null exactly when the block was obtained from `allocate(0)` (array.hpp:60-65), i.e. when the array has no element.
-    The D = 1 `sliced_aux_` (array_ref.hpp:2922-2934) has no such assertion but performs the same pointer arithmetic.
-    `thisNull`/`tmpNull`: whether the respective `base_` is null (`clear()` does not reset `base_`: after `clear()`
-    it is null only if the array had no element before).  Returns whether every assertion holds
-    (equivalently: no non-zero offset is applied to a null pointer). -/
-def reextentAsserts (thisNull : Bool) (a : Arr α) (x : List Ext) : Bool :=
-  if Exts.eqv x a.lay.exts then true
-  else
-    let tl := Layout.ofExts x
-    let is := Exts.inter a.lay.exts tl.exts
-    let tmpNull := tl.numElements == 0
-    let side (null : Bool) (l : Layout) : Bool :=
-      !null || (List.zip is l).all fun (e, d) => e.first * d.stride - d.offset == 0
-    side thisNull a.lay && side tmpNull tl
 
 /-- `array_ref::serialize_flat_` array_ref.hpp:3592-3596: `ar & make_array(data_elements(), num_elements())` -/
 def flat (c : Codec τ α) (ar : Archive τ) (a : Arr α) : Option (Archive τ × Arr α) := do
@@ -178,12 +161,6 @@ def serialize (c : Codec τ α) (ci : ICodec τ) (ar : Archive τ) (a : Arr α) 
   let extensions_ := a.lay.exts
   let (ar1, exts') ← ar.exts ci extensions_
   (a.resizeStep c.dflt exts').flat c ar1
-
-/-- whether the load path of `array::serialize` stays clear of the null-pointer assertion of `reextentAsserts`
-    (an explicit assertion predicate: `serialize` itself models the behaviour of a build without assertions, where
-    the offset null pointer is never dereferenced) -/
-def loadAsserts (a : Arr α) (exts' : List Ext) : Bool :=
-  if Exts.neqv a.lay.exts exts' then (a.clear).reextentAsserts a.data.isEmpty exts' else true
 
 /-- save into a fresh archive -/
 def save (c : Codec τ α) (ci : ICodec τ) (a : Arr α) : List τ :=
